@@ -18,6 +18,9 @@ Property theorems only (plus the helper lemmas they need). The model (`CD.flags`
 * `C17_cex_subdiagram`    the sub-diagram derivation on the shared graph removes edges of its source (test)
 * `C17_accessors`         after any run every diagram's accessors report exactly its own graph
 * `C17_accessors_pure`    `C17_views_pure` for every accessor: no read ever differs from the previous read of that diagram
+* `C17_consistent`        every quirk setting, every annotation: one-to-many ⇔ container ∧ ¬ builtin endpoint, the relationship
+                          kinds and "builtin-valued" are mutually exclusive and exhaustive, type-valued ⇒ container
+* `C17_enum_one_to_one`   `is_enum` True ⇒ one-to-one to a non-builtin, not a container
 -/
 namespace KrroodVerif.CD
 
@@ -904,4 +907,89 @@ example :
     readTrace readout .today (Store.init (build .today w [0, 1, 2])) [] [.read 0, .sub 0 false, .read 0]
       = [false, false, true] := by decide
 
+/-! ## accessor consistency -/
+
+/-- a container is never an optional (their origins are different objects), under every quirk setting -/
+theorem container_not_optional (q : Quirks) (t : Ann) (h : isContainer t = true) : isOptional q t = false := by
+  cases t with
+  | container k x => cases k <;> rfl
+  | typeOf x => rfl
+  | optional st x => cases st <;> simp [isContainer, getOrigin, containerOrigins] at h
+  | union x y w => simp [isContainer, getOrigin, containerOrigins] at h
+  | builtin b => rfl
+  | cls i => rfl
+  | enum i => rfl
+  | fwd x => rfl
+
+/-- `is_enum` answers True only for a field whose endpoint is an enum class -/
+theorem enum_endpoint (q : Quirks) (t : Ann) (h : isEnum q t = .t) : ∃ i, typeEndpoint q t = .ann (.enum i) := by
+  cases q with | mk sc su p z =>
+  cases t with
+  | builtin b => exact absurd (show Tri.f = Tri.t from h) (by decide)
+  | cls i => exact absurd (show Tri.f = Tri.t from h) (by decide)
+  | fwd x => exact absurd (show Tri.err = Tri.t from h) (by decide)
+  | union x y w => cases w <;> exact absurd (show Tri.err = Tri.t from h) (by decide)
+  | enum i => cases su <;> exact ⟨i, rfl⟩
+  | typeOf x => exact absurd (show Tri.f = Tri.t from h) (by decide)
+  | container k x => cases k <;> exact absurd (show Tri.f = Tri.t from h) (by decide)
+  | optional st x =>
+    cases st <;> cases p <;> cases z <;> cases x <;> cases su <;>
+      first
+        | exact ⟨_, rfl⟩
+        | exact absurd (show Tri.f = Tri.t from h) (by decide)
+        | exact absurd (show Tri.err = Tri.t from h) (by decide)
+
+/-- non-vacuity: `Optional[E0]` -/
+example : isEnum .current (.optional .typing (.enum 0)) = .t := rfl
+
+/-- **C17_enum_one_to_one.** Under every quirk setting and for every annotation: a field for which `is_enum` answers
+True is a one-to-one relationship to a non-builtin (its endpoint is the enum class), never a container. -/
+theorem C17_enum_one_to_one (q : Quirks) (t : Ann) (h : isEnum q t = .t) :
+    isOneToOne q t = true ∧ isBuiltinType q t = false ∧ isContainer t = false ∧ isOneToMany q t = false := by
+  obtain ⟨i, hi⟩ := enum_endpoint q t h
+  have hb : isBuiltinType q t = false := by simp [isBuiltinType, hi, Arg.leaf, Leaf.isBuiltin]
+  have hc : isContainer t = false := by
+    cases hc : isContainer t
+    · rfl
+    · simp [isEnum, hc] at h
+  simp [isOneToOne, isOneToMany, hb, hc]
+
+/-- **C17_consistent** (accessor consistency). Under EVERY quirk setting (the code as it was found, as it is now, and
+repaired) and for EVERY annotation term: `is_one_to_many_relationship ⇔ is_container ∧ ¬ builtin endpoint` (the
+`not is_optional` conjunct of the source is redundant: a container is never an optional);
+`is_one_to_one_relationship ⇔ ¬ is_container ∧ ¬ builtin endpoint`; the three kinds "builtin-valued", "one-to-one",
+"one-to-many" are mutually exclusive and exhaustive; `is_type_type ⇒ is_container`; `is_iterable ⇒ one-to-many and
+not type-valued`. -/
+theorem C17_consistent (q : Quirks) (t : Ann) :
+    isOneToMany q t = (isContainer t && !isBuiltinType q t) ∧
+    isOneToOne q t = (!isContainer t && !isBuiltinType q t) ∧
+    (isOneToOne q t && isOneToMany q t) = false ∧
+    (isBuiltinType q t && isOneToOne q t) = false ∧
+    (isBuiltinType q t && isOneToMany q t) = false ∧
+    (isBuiltinType q t || isOneToOne q t || isOneToMany q t) = true ∧
+    (isContainer t && isOptional q t) = false ∧
+    (isTypeType t = true → isContainer t = true) ∧
+    (isIterable q t = true → isOneToMany q t = true ∧ isTypeType t = false) := by
+  have hco := container_not_optional q t
+  refine ⟨?_, rfl, ?_, ?_, ?_, ?_, ?_, ?_, ?_⟩
+  · unfold isOneToMany
+    cases hc : isContainer t <;> simp [hc] at hco ⊢
+    simp [hco]
+  · unfold isOneToOne isOneToMany; cases isContainer t <;> simp
+  · unfold isOneToOne; cases isBuiltinType q t <;> simp
+  · unfold isOneToMany; cases isBuiltinType q t <;> simp
+  · unfold isOneToOne isOneToMany
+    cases hc : isContainer t <;> cases isBuiltinType q t <;> simp [hc] at hco ⊢
+    simp [hco]
+  · cases hc : isContainer t <;> simp [hc] at hco ⊢
+    exact hco
+  · intro h
+    cases t with
+    | typeOf x => rfl
+    | container k x => cases k <;> rfl
+    | optional st x => cases st <;> simp [isTypeType, getOrigin] at h
+    | _ => simp [isTypeType, getOrigin] at h
+  · intro h
+    simp [isIterable, isTypeType] at h ⊢
+    exact h
 end KrroodVerif.CD
